@@ -177,7 +177,8 @@ int remove_directory(const char *dirname)
 			continue;
 
 		snprintf(buf, sizeof(buf), "%s/%s", dirname, ent->d_name);
-		ret = stat(buf, &statbuf);
+		/* do not follow a symbolic link out of the directory */
+		ret = lstat(buf, &statbuf);
 		if (ret < 0)
 			goto failed;
 
